@@ -233,7 +233,8 @@ def structured_mul(rng):
             Q = rng.choice([I128_MAX, I128_MAX - 1, I128_MAX + 1, I128_MAX // 3])
             ab = Q * 10 ** shift + rng.choice([0, 1, -1, 5 * 10 ** (shift - 1), 5 * 10 ** (shift - 1) - 1,
                                                 5 * 10 ** (shift - 1) + 1, 10 ** shift - 1])
-            a = rng.randint(max(2, ab // I128_MAX + 1), 10 ** rng.randint(2, 20))
+            lo = max(2, ab // I128_MAX + 1)
+            a = rng.randint(lo, lo * 10 ** rng.randint(0, 8))
             b = ab // a
             if b > I128_MAX or a > I128_MAX:
                 continue
